@@ -329,6 +329,9 @@ func outClass(o Outcome) string {
 		return o.Class
 	}
 	e := o.Exact
+	if strings.HasPrefix(e, "b:") || strings.HasPrefix(e, "nb:") {
+		return "ok/" + e // the two truth values are different outcomes
+	}
 	if i := strings.IndexAny(e, ":[{("); i >= 0 {
 		e = e[:i]
 	}
